@@ -31,9 +31,74 @@ def cases(tier, r):
     for i in range(N_HAND):
       for mode in range(4):
         yield 'hand', {'hand': i, 'seed': r.getrandbits(32), 'mode': mode}
+  # hand-assembled DIFFS (not produced by build_diff): every one in every mode
+  for rep in range(2 if tier == 'quick' else 12):
+    for i in range(N_HAND_DIFF):
+      for mode in range(4):
+        yield 'hand_diff', {'hand_diff': i, 'seed': r.getrandbits(32), 'mode': mode}
 
 
 N_HAND = 8
+N_HAND_DIFF = 5
+
+
+def hand_diff(i, r):
+  """(old, Diff) assembled by hand: new values in states build_diff never emits, references
+  through another path than the first one, references among new shared values."""
+  from fiddle import daglish as dg
+  fa, fb, fc = pairs.fa, pairs.fb, pairs.fc
+  A, I, K = dg.Attr, dg.Index, dg.Key
+  Ref = diffing.Reference
+  if i == 0:
+    # a new value on which a tag was added and withdrawn again (an EMPTY tag set is left behind),
+    # next to an argument with two tags
+    old = fdl.Config(fa, p=fdl.Config(fc, x=1), q=2)
+    nv = fdl.Config(fc, x=r.randint(3, 9), y=6)
+    fdl.add_tag(nv, 'x', targets.T1)
+    if r.random() < 0.7:
+      fdl.remove_tag(nv, 'x', targets.T1)
+    else:
+      fdl.clear_tags(nv, 'x')
+    fdl.add_tag(nv, 'y', targets.T0)
+    fdl.add_tag(nv, 'y', targets.T2)
+    return old, diffing.Diff(changes=(diffing.SetValue((A('r'),), nv), diffing.ModifyValue((A('q'),), 3)))
+  if i == 1:
+    # one object of old reachable by two paths: a child is replaced through one path and the
+    # ORIGINAL child is referenced through the other
+    shared = fdl.Config(fc, x=fdl.Config(fc, y=r.randint(1, 5)), y=0)
+    # (the referencing parent comes after the replacing one, or before it)
+    if r.random() < 0.7:
+      old = fdl.Config(fa, p=shared, q=shared, r=fdl.Config(fc, y=3))
+      return old, diffing.Diff(changes=(
+          diffing.ModifyValue((A('p'), A('x')), fdl.Config(fc, y=99)),
+          diffing.SetValue((A('r'), A('x')), Ref('old', (A('q'), A('x'))))))
+    old = fdl.Config(fa, p=shared, q=shared, r=0)
+    return old, diffing.Diff(changes=(
+        diffing.ModifyValue((A('p'), A('x')), fdl.Config(fc, y=99)),
+        diffing.ModifyValue((A('r'),), Ref('old', (A('q'), A('x'))))))
+  if i == 2:
+    # the same through containers, the reference sits inside a new value
+    shared = [fdl.Config(fc, x=r.randint(1, 5)), 7]
+    old = fdl.Config(fa, p={'a': shared, 'b': shared}, q=1, r=fdl.Config(fc, y=3))
+    return old, diffing.Diff(changes=(
+        diffing.ModifyValue((A('p'), K('a'), I(0)), 'replaced'),
+        diffing.SetValue((A('r'), A('x')), fdl.Config(fb, p=Ref('old', (A('p'), K('b'), I(0))), s=2))))
+  if i == 3:
+    # references among new shared values, used from several places
+    old = fdl.Config(fa, q=1)
+    nsv = (fdl.Config(fc, x=r.randint(1, 5)),
+           fdl.Config(fb, p=Ref('new_shared_values', (I(0),)), q=[Ref('new_shared_values', (I(0),))]))
+    return old, diffing.Diff(changes=(
+        diffing.SetValue((A('r'),), [Ref('new_shared_values', (I(1),)), Ref('new_shared_values', (I(1),))]),
+        diffing.SetValue((A('k'),), Ref('new_shared_values', (I(0),))),
+        diffing.DeleteValue((A('q'),))), new_shared_values=nsv)
+  # a value moved out of a part of old that is replaced as a whole, and a tag change on the target
+  inner = fdl.Config(fc, x=r.randint(1, 5))
+  old = fdl.Config(fa, p=fdl.Config(fb, p=inner, q=[inner]), q=0)
+  return old, diffing.Diff(changes=(
+      diffing.ModifyValue((A('p'),), 'gone'),
+      diffing.SetValue((A('r'),), {'kept': Ref('old', (A('p'), A('q'), I(0)))}),
+      diffing.AddTag((A('q'),), targets.T1)))
 
 
 def hand_pair(i, r):
@@ -105,7 +170,11 @@ def execute(case):
     from harness import flatdiff
     return flatdiff.execute(case, True)
   import random
-  if 'hand' in case:
+  d = None
+  if 'hand_diff' in case:
+    old, d = hand_diff(case['hand_diff'], random.Random(case['seed']))
+    kinds = ['hand_diff%d' % case['hand_diff']]
+  elif 'hand' in case:
     old, new = hand_pair(case['hand'], random.Random(case['seed']))
     kinds = ['hand%d' % case['hand']]
   else:
@@ -113,8 +182,9 @@ def execute(case):
   naming, with_old = MODES[case['mode']]
   obs = {'kinds': kinds, 'mode': [naming, with_old]}
   try:
-    graphs.encode(new)
-    d = diffing.build_diff(old, new)
+    if d is None:
+      graphs.encode(new)
+      d = diffing.build_diff(old, new)
     want_cfg = copy.deepcopy(old)
     diffing.apply_diff(d, want_cfg)
     want = graphs.canon(want_cfg, order_dicts=True)
@@ -218,7 +288,7 @@ def nontrivial(case, real):
     return ('flat', _json.dumps(case['old'], sort_keys=True), _json.dumps(case['new'], sort_keys=True))
   if 'skip' in real or real.get('codegen') != 'ok' or not real.get('n_changes'):
     return None
-  return (case.get('seed'), case.get('hand'), case['mode'])
+  return (case.get('seed'), case.get('hand'), case.get('hand_diff'), case['mode'])
 
 
 def run(tier):
